@@ -199,7 +199,7 @@ pub fn run(run: &Arc<Run>) {
          non-trivial = n >= 2, variance > 0, inside the conditioning domain kappa*u <= 2^-12; distinct = (data, type, confidence) fingerprints.",
     );
     run.assume("Student-t / normal quantile oracles accurate to 1e-12 (self-test against mpmath tables at start); tol_P(nu, p) = 1e-10 + min(5e-8 sqrt(nu), 1e-16 nu/|p - 1/2|) conceded to the crate's quantile routine; either t or z accepted for 90 000 <= n-1 < 110 000");
-    if let Some(case) = &run.replay_case {
+    if let Some(case) = run.replay_case.as_ref().filter(|c| c["what"] != "order") {
         let spec: Spec = serde_json::from_value(case["spec"].clone()).expect("spec");
         let confs: Vec<(Kind, f64)> = serde_json::from_value(case["confs"].clone()).expect("confs");
         let mut l = run.local();
@@ -211,6 +211,16 @@ pub fn run(run: &Arc<Run>) {
         run.absorb(l);
         return;
     }
+    if let Some(case) = &run.replay_case {
+        if case["what"] == "order" {
+            let mut l = run.local();
+            crate::props::purity::order_independence("mean/comparison CI", seed, case["i"].as_u64().unwrap(), &mut l);
+            run.absorb(l);
+            return;
+        }
+    }
+    // hidden state: the interval must not depend on which confidence / sample was queried before
+    run.par(run.cfg.by(150u64, 3000), |i, l| crate::props::purity::order_independence("mean/comparison CI", seed, i, l));
     let n = run.cfg.by(24_000u64, 600_000);
     let per_kind = run.cfg.by(2usize, 6);
     run.par(n, |i, l| {
@@ -224,7 +234,7 @@ pub fn run(run: &Arc<Run>) {
             judge_sample::<f64>(&spec, &confs, &case, l)
         }
     });
-    let mut req: Vec<String> = vec!["level<1/2".into(), "level>0.99".into(), "critical-value:t".into(), "critical-value:z".into()];
+    let mut req: Vec<String> = vec!["order-independence groups judged".into(), "level<1/2".into(), "level>0.99".into(), "critical-value:t".into(), "critical-value:z".into()];
     for n in 2..=9 {
         req.push(format!("n={}", n));
     }
